@@ -25,7 +25,7 @@ RULE = (
     "enumeration of the transfer-free valid mappings, re-priced for dup, floss in {0..5}, spe=0.  Checked: reconcile_lca maps every internal "
     "node to the parent-chain LCA of the species of its leaves (with each of the 36 cost pairs set in place on the same input object; again after one leaf was moved to another species in place, and after it was moved back), is valid, its package cost == recount == minimum for all 36 pairs, and for "
     "floss>0 it is the only optimal mapping.  A fifth (exhaustive) / quarter (random) of the named cases give ancestral objects names of the form <species leaf>_<n> (either letter case) and leave the leaf assignment to be inferred from the names.  Random layer: inputs <=5/5 (same oracle) and <=10/8 leaves (reconcile_thl with hgt=inf must "
-    "cost the same as reconcile_lca, 3 random cost pairs).  Ancestral nodes of both trees are unnamed in a third (exhaustive) / half (random) of the cases and results are read by clades.  Non-trivial: the LCA reconciliation has >=1 duplication and >=1 loss; "
+    "cost the same as reconcile_lca, 3 random cost pairs).  Ancestral nodes of both trees are unnamed in a third (exhaustive) / half (random) of the cases and results are read by clades.  One case in 16 (exhaustive) / 6 (random) is also run through `superrec2 reconcile ... lca` (unnamed ancestors written as empty names or as ete3's NoName, or partially labelled trees whose remaining labels look like generated ones, output path holding stale content) and the written solution, read by clades, must be the same mapping with the recounted cost printed.  Non-trivial: the LCA reconciliation has >=1 duplication and >=1 loss; "
     "distinct by SHA-1 of the input."
 )
 ASSUMPTIONS = ["speciation cost 0, transfers forbidden (infinite transfer cost)", "enumerator and parent-chain LCA of harness/plain.py"]
@@ -48,6 +48,8 @@ def _case(draw):
         case["_pairs"] = [[draw(st.integers(0, 5)), draw(st.integers(0, 5))] for _ in range(3)]
     case["_unnamed"] = draw(st.booleans())
     case["_move"] = draw(st.integers(0, 9))
+    if gen.chance(draw, 1, 6):
+        case["_cli"] = draw(st.sampled_from(["plain", "noname", "partial"]))
     if gen.chance(draw, 1, 4):
         case["_leaflike"] = [[draw(st.integers(-1, 9)), draw(st.booleans())] for _ in range(4)]
     return case
@@ -105,6 +107,8 @@ def run_job(job):
             case["_kind"] = "oracle"
             case["_unnamed"] = k % 3 == 0
             case["_move"] = k % 7
+            if k % 16 == 5:
+                case["_cli"] = ("noname", "plain", "partial")[(k // 16) % 3]
             if k % 5 == 1:
                 case["_leaflike"] = [[k % 4 - 1, bool(k % 2)], [(k // 4) % 3, bool((k // 2) % 2)]]
             yield case
@@ -172,6 +176,46 @@ def check(case):
     why = inst.mapping_valid(m)
     if why:
         raise Violation("lca.V-MAP." + why.split(":")[0], observed=m, expected="valid")
+    if case.get("_cli"):
+        # the command-line path (`superrec2 reconcile ... lca`): same file content (named, unnamed, NoName or leaf-like
+        # ancestors), output path holding stale content; the single written solution is read back by clades
+        import json
+
+        from .. import stubs
+        from ..plain import parse_newick
+
+        data = dict(given, costs=base["costs"])
+        if case["_cli"] == "partial" and not unnamed and not leaflike:
+            # partially labelled: ancestors keep generated-looking labels (O<k>/S<k>) in reverse pre-order and every other
+            # one, starting with the root, is left unnamed - the labels handed out must avoid the ones further down
+            for key in ("object_tree", "species_tree"):
+                t = parse_newick(data[key])
+                inner = [n for n in t.preorder() if not t.is_leaf(n)]
+                names = [t.name[n] for n in inner][::-1]
+                for i, n in enumerate(inner):
+                    t.name[n] = "" if i % 2 == 0 else names[i]
+                data[key] = t.to_newick()
+        if case["_cli"] == "noname":
+            for key in ("object_tree", "species_tree"):
+                t = parse_newick(data[key])
+                for n in t.nodes():
+                    if not t.is_leaf(n) and t.name[n] == "":
+                        t.name[n] = "NoName"
+                data[key] = t.to_newick()
+        status, lines, printed, err, _raw = stubs.cli_reconcile(data, "lca", "any", stale_output=True)
+        if status != 0 or len(lines) != 1:
+            raise Violation("cli.lca.status-or-line-count", observed={"status": status, "lines": len(lines), "stderr": err[-300:]}, expected="status 0, one line")
+        sol = json.loads(lines[0])
+        ot, stt = parse_newick(sol["input"]["object_tree"]), parse_newick(sol["input"]["species_tree"])
+        oc = {ot.name[n]: ot.clade(n) for n in ot.nodes()}
+        sc = {stt.name[n]: stt.clade(n) for n in stt.nodes()}
+        if len(oc) != len(ot.nodes()) or len(sc) != len(stt.nodes()):
+            raise Violation("cli.lca.names-not-distinct", observed=[list(ot.name), list(stt.name)], expected="distinct names")
+        got = {oname[oc[k]]: sname[sc[v]] for k, v in sol["object_species"].items()}
+        if got != expected:
+            raise Violation("cli.lca.mapping!=parent-chain-lca", observed=got, expected=expected)
+        if printed != inst.rec_cost(expected):
+            raise Violation("cli.lca.minimum-cost", observed=printed, expected=inst.rec_cost(expected))
     _pat, lca_counts = inst.rec_profile(m)
     if lca_counts["T"]:
         raise Violation("lca.contains-transfer", observed=lca_counts, expected="no transfer")
